@@ -170,3 +170,38 @@ theorem ofText_toText_full (nlaws : NumLaws ops) (tlaws : TjLaws nu) (t : TileJS
   simp only [fromObject_asObject_full nu tlaws t h]
 
 end VtProofs.TileJson
+
+namespace VtProofs.TileJson
+open VtModel.Json VtModel.TileJson VtProofs.Json
+
+/-- `VectorLayers::merge` through lookups: a layer only in `other` is taken over, a layer in both is
+    `VectorLayer::merge`d, a layer only in `self` stays -/
+theorem lookup_mergeLayers (a b : List (Key × VectorLayer)) (hb : SortedKeys b) (k : Key) :
+    lookupKV k (mergeLayers a b) =
+      match lookupKV k b, lookupKV k a with
+      | some lb, some la => some (mergeLayer la lb)
+      | some lb, none => some lb
+      | none, x => x := by
+  induction b generalizing a with
+  | nil => simp only [mergeLayers, List.foldl_nil, lookupKV]
+  | cons p b ih =>
+    obtain ⟨id, l⟩ := p
+    have hp := List.pairwise_cons.1 hb
+    have hstep : mergeLayers a ((id, l) :: b) =
+        mergeLayers (match lookupKV id a with | some ex => insertKV id (mergeLayer ex l) a | none => insertKV id l a) b := by
+      simp only [mergeLayers, List.foldl_cons]
+      rfl
+    rw [hstep, ih _ hp.2]
+    by_cases e : k = id
+    · subst e
+      rw [lookup_none_of_lt k b hp.1]
+      simp only [lookupKV, cmpKey_refl, beq_self_eq_true, if_true]
+      cases lookupKV k a <;> simp [lookup_insert_same]
+    · have hne : (cmpKey k id == .eq) = false := by
+        cases hc : cmpKey k id <;> simp
+        exact e (cmpKey_eq hc)
+      have hm : lookupKV k (match lookupKV id a with | some ex => insertKV id (mergeLayer ex l) a | none => insertKV id l a) = lookupKV k a := by
+        cases lookupKV id a <;> simp [lookup_insert_other _ _ e]
+      simp only [lookupKV, hne, Bool.false_eq_true, if_false, hm]
+
+end VtProofs.TileJson
